@@ -57,6 +57,12 @@
 # pragma GCC diagnostic ignored "-Wcast-qual"
 #endif	/* __INTEL_COMPILER */
 
+/* read a number, blanks in front of it only when the spec asks for them */
+#define STRTOI_PAD(s, sp, ep, lo, hi)			\
+	((s).pad == DT_SPPAD_SPC			\
+	 ? padstrtoi_lim(sp, ep, lo, hi)		\
+	 : strtoi_lim(sp, ep, lo, hi))
+
 DEFUN int
 __strpt_card(struct strpt_s *d, const char *str, struct dt_spec_s s, char **ep)
 {
@@ -79,21 +85,21 @@ __strpt_card(struct strpt_s *d, const char *str, struct dt_spec_s s, char **ep)
 		break;
 	case DT_SPFL_N_HOUR:
 		if (!s.sc12) {
-			d->h = padstrtoi_lim(sp, &sp, 0, 23);
+			d->h = STRTOI_PAD(s, sp, &sp, 0, 23);
 		} else {
-			d->h = padstrtoi_lim(sp, &sp, 1, 12);
+			d->h = STRTOI_PAD(s, sp, &sp, 1, 12);
 		}
 		if (d->h < 0) {
 			goto fucked;
 		}
 		break;
 	case DT_SPFL_N_MIN:
-		if ((d->m = padstrtoi_lim(sp, &sp, 0, 59)) < 0) {
+		if ((d->m = STRTOI_PAD(s, sp, &sp, 0, 59)) < 0) {
 			goto fucked;
 		}
 		break;
 	case DT_SPFL_N_SEC:
-		if ((d->s = padstrtoi_lim(sp, &sp, 0, 60)) < 0) {
+		if ((d->s = STRTOI_PAD(s, sp, &sp, 0, 60)) < 0) {
 			goto fucked;
 		}
 		break;
